@@ -476,6 +476,22 @@ def report(prop, mine, results, missing, seed, wall, args):
                 'functions_without_concrete_inputs': sorted(cc['skipped'])}
             cases, mfail = modelcheck.run(3)
             extra['string_model_crosscheck_against_cpython'] = {'cases': cases, 'failures': len(mfail)}
+            suites = [x for m in mine for x in getattr(m, 'conformance_suites', [])]
+            if suites:
+                import subprocess
+                env = dict(os.environ, PYTHONPATH=os.pathsep.join([VERIF, REPO_SRC, os.path.join(REPO, 'test')]))
+                p = subprocess.run(['/venv/bin/python', '-W', 'ignore', '-m', 'pyvc.conformance', prop] + suites,
+                                   cwd=VERIF, env=env, capture_output=True, text=True, timeout=1800)
+                try:
+                    conf = json.loads(p.stdout[p.stdout.index('{'):])
+                except Exception:
+                    conf = {'error': (p.stdout + p.stderr)[-800:]}
+                extra['runtime_conformance_under_repository_unit_tests'] = conf
+                if conf.get('precondition_failures') or conf.get('postcondition_failures') or 'error' in conf:
+                    print('CHECKER-ERROR: run-time conformance: %s' % json.dumps(
+                        {k: conf.get(k) for k in ('precondition_failures', 'postcondition_failures', 'error')})[:1500])
+                    if exit_code == 0:
+                        exit_code = 3
             if cc['failures'] or mfail:
                 for f in (cc['failures'] + mfail)[:10]:
                     print('CHECKER-ERROR: cross-check against CPython failed: %r' % (f,))
